@@ -1,19 +1,45 @@
 package model
 
 import (
+	"encoding/json"
 	"reflect"
 
 	"github.com/grindlemire/go-lucene/pkg/lucene/expr"
 )
 
-// fuzzyBoostArg reads the (unexported) distance / power of a fuzzy or boost node
-// by reflection (reading unexported numeric fields is permitted).
+// fuzzyBoostArg recovers the distance / power of a fuzzy or boost node. The two
+// numbers live in unexported fields; they are read by reflection (reading unexported
+// numeric fields is permitted). Should a refactoring rename or retype those fields the
+// public JSON encoding is used instead (keys "distance" / "power", omitted when 1), so
+// that such a refactoring does not break the harness.
 func fuzzyBoostArg(e *expr.Expression) (want float64, mustInt bool) {
 	v := reflect.ValueOf(e).Elem()
 	if e.Op == expr.Fuzzy {
-		return float64(v.FieldByName("fuzzyDistance").Int()), true
+		if f := v.FieldByName("fuzzyDistance"); f.IsValid() && f.CanInt() {
+			return float64(f.Int()), true
+		}
+		return jsonArg(e, "distance"), true
 	}
-	return v.FieldByName("boostPower").Float(), false
+	if f := v.FieldByName("boostPower"); f.IsValid() && f.CanFloat() {
+		return f.Float(), false
+	}
+	return jsonArg(e, "power"), false
+}
+
+func jsonArg(e *expr.Expression, key string) float64 {
+	raw, err := json.Marshal(e)
+	if err != nil {
+		return 1
+	}
+	var top map[string]json.RawMessage
+	if json.Unmarshal(raw, &top) != nil {
+		return 1
+	}
+	var f float64
+	if r, ok := top[key]; !ok || json.Unmarshal(r, &f) != nil {
+		return 1
+	}
+	return f
 }
 
 // FuzzyBoostArg exposes the recovered argument.
